@@ -456,6 +456,64 @@ def gen_c06(tier, rng):
         ops.append(("dec d feedsel e " + " ".join(items)).rstrip())
         ops.append("dec d pending")
         cases.append(Case("c06", ops, nontrivial=nfr > 1, tags=tuple(tags), meta={"items": items, "nfr": nfr}))
+    cases += gen_c06_multicall(tier, rng)
+    return cases
+
+
+def gen_c06_multicall(tier, rng):
+    """one encoder stream over several encode calls (each call may start with a packet that needs segmentation), faults across
+    the call boundaries; the frames of all calls are accumulated (`encodeacc`)"""
+    cases = []
+    for ci in range(200 if tier == "quick" else 2500):
+        mx = rng.choice([25, 30, 40, 64])
+        cap = mx - 8
+        ops = ["enc e dev 7", "enc e stream 9"]
+        kinds = []
+        npk = 0
+        for call in range(rng.randrange(2, 5)):
+            ids = []
+            used = None
+            last_mt = None
+            for _p in range(rng.randrange(1, 3)):
+                ln = rng.choice([1, 5, mx - 24, mx - 23, 2 * (mx - 24), 2 * (mx - 24) + 1, 3 * (mx - 24)])
+                p = gen_enc.gpkt(ln, rng.randrange(251), ty=rng.choice([0x01FF, 0x0104]), ts=rng.getrandbits(40), ifid=rng.getrandbits(32),
+                                 flags=rng.getrandbits(8) & 0xB3, ver=3)
+                ops.append(gen_enc.pline(p, "p%d" % npk))
+                ids.append("p%d" % npk)
+                npk += 1
+                mt = p.ty >> 8
+                if 16 + ln > cap:
+                    kinds += ["S"] * (-(-ln // (cap - 16)))
+                    used = None
+                else:
+                    if used is None or last_mt != mt or used + 16 + ln > cap:
+                        kinds.append("U")
+                        used = 16 + ln
+                    else:
+                        used += 16 + ln
+                last_mt = mt
+            ops.append("enc e encodeacc 0 %d %s" % (mx, " ".join(ids)))
+        nfr = len(kinds)
+        ops.append("dec c feedsel e " + " ".join(str(i) for i in range(nfr)))
+        seq = []
+        k = 0
+        for i in range(nfr):
+            r = rng.random()
+            if r < 0.25:
+                continue
+            if r < 0.32:
+                seq += [str(i), str(i)]
+            elif r < 0.38 and kinds[i] == "S":
+                k += 1
+                seq.append("%d:v%d" % (i, 3 + k))
+            else:
+                seq.append(str(i))
+        if rng.random() < 0.3 and len(seq) > 1:
+            a = rng.randrange(len(seq) - 1)
+            seq[a], seq[a + 1] = seq[a + 1], seq[a]
+        ops.append(("dec d feedsel e " + " ".join(seq)).rstrip())
+        ops.append("dec d pending")
+        cases.append(Case("c06m", ops, nontrivial=True, tags=("multi-call-stream",), meta={"items": seq, "nfr": nfr}))
     return cases
 
 
